@@ -93,8 +93,8 @@ Record lin_case := mkLinCase {
   lc_built : result (lmodel Q);
   lc_rhs : list (list (lname * Q) * option (list Q))
 }.
-Definition check_lin (dir : direction) (c : lin_case) : bool :=
-  let mine := build_linear dir (lc_lv c) (lc_maps c) (lc_init c) (lc_concs c) (lc_fluxes c) (lc_ext c) (lc_rxns c) in
+Definition check_lin (ek : expand_kind) (dir : direction) (c : lin_case) : bool :=
+  let mine := build_linear_x ek dir (lc_lv c) (lc_maps c) (lc_init c) (lc_concs c) (lc_fluxes c) (lc_ext c) (lc_rxns c) in
   result_eqb (lmodel_eqb Qeq_bool) mine (lc_built c)
   && match mine with
      | Ok m => forallb (fun sr => optQs_eqb (rhs_exec (fun q => q) m (fst sr)) (snd sr)) (lc_rhs c)
